@@ -966,6 +966,11 @@ func (sc *segmentController[T, O]) create(ctx context.Context, start time.Time) 
 	if n != len(data) {
 		logger.Panicf("unexpected number of bytes written to %s; got %d; want %d", metadataPath, n, len(data))
 	}
+	// Make the metadata content and its directory entry durable before the
+	// segment takes data: open() treats a segment whose metadata is missing or
+	// empty as invalid and removes the whole segment directory.
+	sc.lfs.SyncPath(metadataPath)
+	sc.lfs.SyncPath(segPath)
 	return sc.load(ctx, start, end, sc.location)
 }
 
